@@ -4,7 +4,7 @@
 //
 //	phase 0  the seed grammars unchanged: parsers/{json,simple,test,tm}/*.tm, a hand cut-down of js.tm,
 //	         compiler/testdata/*.tmerr with the «» markers stripped, 10 hand-written feature grammars;
-//	phase 1  every byte string of length <= 3 over 18 bytes inserted in 5 minimal contexts;
+//	phase 1  every byte string of length <= 3 over 18 bytes inserted in 7 minimal contexts;
 //	phase 2  every 1-token deviation of every seed: deletion, duplication, swap with the next token,
 //	         replacement by each of the replacement tokens below (token boundaries come from the real
 //	         tm lexer; comments count as white space);
@@ -159,6 +159,10 @@ var byteContexts = []struct{ name, before, after string }{
 	// the bytes are the body of a regular expression that ends the text: exercises the mapping of
 	// regexp error positions (compiler/lexer.go:parsePattern) right at the end of the input
 	{"regexp", "language l(go);\n:: lexer\na: /", "/"},
+	// the same after a multi-byte character inside the pattern: byte columns and rune counts differ
+	{"regexp-after-nonascii", "language l(go);\n:: lexer\na: /é", "/"},
+	// and inside a named pattern
+	{"named-pattern-after-nonascii", "language l(go);\n:: lexer\np = /é", "/\na: /{p}/\n"},
 }
 
 type edit struct {
@@ -804,7 +808,7 @@ func run(c *core.Ctx) {
 	seeds := loadSeeds()
 	quick := c.Quick()
 	c.Rule("seed grammars x {0, 1 (thorough: 2 for seeds < 60 tokens)} token deviations (delete, duplicate, swap-with-next, replace by one of " +
-		strconv.Itoa(len(replacements)) + " tm tokens; no-op edits skipped; quick: seeds > " + strconv.Itoa(quickBigSeed) + " tokens use only the replacement tokens ; ( a) + all byte strings <= 3 over 18 bytes in 5 contexts; " +
+		strconv.Itoa(len(replacements)) + " tm tokens; no-op edits skipped; quick: seeds > " + strconv.Itoa(quickBigSeed) + " tokens use only the replacement tokens ; ( a) + all byte strings <= 3 over 18 bytes in 7 contexts; " +
 		"every case through compiler.Compile (CheckOnly off; also on when the text mentions optimizeTables). " +
 		"Non-trivial = the text passes the tm parser, i.e. reaches the semantic phases; distinct by FNV-64 of the text")
 	c.Assume("log.Fatal* is observed by a log output hook that panics with the caller's identity (the process would exit right after writing the message); everything else that kills or stalls a worker is detected by the shard protocol (45 s without progress on a single case = hang)")
